@@ -71,7 +71,14 @@ def gen_case(rng):
     for _ in range(rng.randint(0, 4)):
         parts = [rng.choice([b"", b"x", b"-o", b"pre", R, R, b"/"]) for _ in range(rng.randint(1, 4))]
         init.append(b"".join(parts))
-    return dict(R=R, opts=opts, seq=seq, r="-r" in opts, lines=lines, final_nl=final_nl, cmd=[b"cmd"] + init)
+    # -s: with -I it limits the command line after the line has been put in (C06_substituted_meets_s): values around that size
+    smax = None
+    if rng.random() < 0.3:
+        line0 = b" ".join(next((ws for ws in lines if ws), [b"x"]))
+        sub = sum(len(a.replace(R, line0)) + 1 for a in [b"cmd"] + init)
+        smax = max(1, rng.choice([sub + d for d in (-6, -2, -1, 0, 1, 2, 9)] + [sum(len(a) + 1 for a in [b"cmd"] + init) + d for d in (0, 1, 3)] + [4000]))
+        opts += rng.choice([["-s", str(smax)], ["-s%d" % smax], ["--max-chars=%d" % smax]])
+    return dict(R=R, opts=opts, seq=seq, r="-r" in opts, lines=lines, final_nl=final_nl, cmd=[b"cmd"] + init, s=smax)
 
 
 def input_of(c):
@@ -107,7 +114,7 @@ def evaluate(ctx, cases):
         t = tokens(c, r2)
         toks_all.append(t)
         eff.append((n2, L2, r2))
-        mlines.append(xc.model_line(n2, L2, None, False, c["r"], c["cmd"], t, False, [], replace=r2, repl_R=c["R"]))
+        mlines.append(xc.model_line(n2, L2, c.get("s"), False, c["r"], c["cmd"], t, False, [], replace=r2, repl_R=c["R"]))
     models = fw.run_lines(fw.FUVM, mlines)
     # rewritten argv for replace mode, from the XReplace model
     repl_req, repl_idx = [], {}
@@ -168,7 +175,7 @@ def report(ctx, bad):
                        "implementation": {"exit": got[0], "invocations": [[fw.hexs(a) for a in i] for i in got[1]]},
                        "model_and_spec": {"exit": exp[0], "invocations": [[fw.hexs(a) for a in i] for i in exp[1]]},
                        "explain": "C20 theorems fix the mode, one run per line, the substitution and the empty-input rule for the model; the implementation differs",
-                       "case": {"R": fw.hexs(c["R"]), "seq": c["seq"], "r": c["r"], "final_nl": c["final_nl"],
+                       "case": {"R": fw.hexs(c["R"]), "seq": c["seq"], "s": c.get("s"), "r": c["r"], "final_nl": c["final_nl"],
                                 "lines": [[fw.hexs(w) for w in ws] for ws in c["lines"]]},
                        "total_disagreements": len(bad)})
 
@@ -213,7 +220,7 @@ def no_command(ctx):
 def replay(ctx, rep):
     if rep.get("kind") == "correspondence":
         k = rep["case"]
-        c = dict(R=fw.unhex(k["R"]), opts=rep["options"], seq=k["seq"], r=k["r"],
+        c = dict(R=fw.unhex(k["R"]), opts=rep["options"], seq=k["seq"], s=k.get("s"), r=k["r"],
                  final_nl=k["final_nl"], lines=[[fw.unhex(w) for w in ws] for ws in k["lines"]], cmd=[fw.unhex(x) for x in rep["command"]])
         report(ctx, evaluate(ctx, [c]))
     else:
